@@ -198,7 +198,7 @@ class Interp:
         if t == 'slice':
             return ('slice', v[1], v[2].subst(a, B), v[3].subst(a, B))
         if t == 'iter':
-            return ('iter', v[1], v[2].subst(a, B), v[3].subst(a, B))
+            return ('iter', v[1], v[2].subst(a, B), v[3].subst(a, B)) + tuple(v[4:])
         if t == 'agg':
             return ('agg', tuple(self._subst_value(x, a, B) for x in v[1]))
         if t == 'enum':
@@ -1487,6 +1487,14 @@ class Interp:
         hook = self.cfg.get('call_hooks', {}).get(key) or self.cfg.get('call_hooks', {}).get(strip_generics(fn['name']))
         if hook:
             hook(self, w, frame, site, key, args)
+        # a function item (or tuple-variant constructor) used as a function value: `<fn item as Fn*>::call*(f, (a, b))`
+        if fn.get('trait') in FN_TRAITS and args and args[0][0] == 'fn' and len(args) == 2:
+            tup = args[1]
+            if tup[0] == 'top':
+                tup = self.deep_expand(w, tup)
+            rest = list(tup[1]) if tup[0] == 'agg' else ([] if tup == UNIT else None)
+            if rest is not None:
+                return self.call_fn(w, frame, bb, term, site, args[0][1], rest, dest_ty)
         # panics
         if stdsum.is_panic(key):
             self.fail(w, frame, site, 'panic', f"reachable call to {key}", {'macros': term['span'].get('macros')})
@@ -1668,6 +1676,10 @@ class Interp:
         if t == 'agg' and depth < 3:
             ts = tuple(self.tag(x, depth + 1) for x in v[1])
             return ts if any(x is not None for x in ts) else None
+        if t == 'iter' and v[2].is_const() and v[3].is_const() and 0 <= v[3].const - v[2].const <= 8 and v[3].const <= 16:
+            # an iterator over a short sequence of known length: worlds at different positions are kept apart, which
+            # unrolls `for x in [a, b, c, d]` instead of widening it
+            return ('it', v[2].const)
         return None
 
     def key_of(self, w, frame, level=0):
@@ -1723,7 +1735,7 @@ class Interp:
             if ty['k'] == 'adt':
                 return self.facts.variant_name(ty['name'], t[1]) + (str(t[2]) if len(t) > 2 else '')
             return str(t[1])
-        if t[0] in ('b', 'i'):
+        if t[0] in ('b', 'i', 'it'):
             return str(t[1])
         ty = fr.body.local_ty(local)
         parts = []
@@ -2326,8 +2338,8 @@ class Interp:
         if ta == 'iter' and tb == 'iter' and a[1] == b[1]:
             p = a[2] if a[2] == b[2] else self.join_int(a[2], b[2], path + ('pos',), ctx)
             e = a[3] if a[3] == b[3] else self.join_int(a[3], b[3], path + ('end',), ctx)
-            if p is not None and e is not None:
-                return ('iter', a[1], p, e)
+            if p is not None and e is not None and a[4:] == b[4:]:
+                return ('iter', a[1], p, e) + tuple(a[4:])
         if ta == 'top' and tb == 'top' and a[1] == b[1]:
             return a
         if ta == 'moved' or tb == 'moved':
